@@ -34,9 +34,11 @@ def generate(seed, stratum, tier):
     live = [i for i, d in enumerate(inst) if d['at'] <= step]
     i = rng.choice(live)
     a = rng.choice(attrs)
-    k = rng.choice(['assign', 'assign', 'aug', 'read', 'read', 'renew'])
+    k = rng.choice(['assign', 'assign', 'aug', 'read', 'read', 'renew', 'aug_other', 'assign_other'])
     val += 1
-    ops.append({'thread': rng.randrange(3), 'inst': i, 'attr': a, 'kind': k, 'k': val * 3 + 1, 'step': step})
+    other = rng.choice(live)
+    ops.append({'thread': rng.randrange(3), 'inst': i, 'attr': a, 'kind': k, 'k': val * 3 + 1, 'step': step,
+                'other': other, 'other_attr': a if k == 'aug_other' else rng.choice(attrs)})
   return {'nclasses': nclasses, 'attrs': attrs, 'instances': inst, 'ops': ops, 'value_equality': rng.random() < 0.3,
           'sched': {'gran': 'line', 'policy': 'sticky', 's': 1.0}}
 
@@ -51,6 +53,10 @@ def text(op):
   t = 'o%d.%s' % (op['inst'], op['attr'])
   if op['kind'] == 'renew':
     return 'pass  # o%d is dropped and a new instance takes its place' % op['inst']
+  if op['kind'] == 'aug_other':
+    return '%s += o%d.%s' % (t, op['other'], op['other_attr'])
+  if op['kind'] == 'assign_other':
+    return '%s = o%d.%s + %d' % (t, op['other'], op['other_attr'], op['k'])
   if op['kind'] == 'assign':
     return '%s = %d' % (t, op['k'])
   if op['kind'] == 'aug':
@@ -115,6 +121,10 @@ def execute(sc, sched):
         model[key] = op['k']
       elif op['kind'] == 'aug':
         model[key] = model[key] + op['k']
+      elif op['kind'] == 'aug_other':
+        model[key] = model[key] + model[(op['other'], op['other_attr'])]
+      elif op['kind'] == 'assign_other':
+        model[key] = model[(op['other'], op['other_attr'])] + op['k']
       else:
         log.append((idx, text(op), ns['x'], model[key]))
       turn[0] = idx + 1
